@@ -573,6 +573,24 @@ impl<'a, 'tcx> Cx<'a, 'tcx> {
                 }
             }
         }
+        if matches!(kind, DefKind::Fn | DefKind::AssocFn) {
+            // names of the generic parameters in substitution order (parents first): lets the region builder replace `T` inside an
+            // inlined generic helper by the type the call site instantiates it with
+            let mut gp: Vec<J> = Vec::new();
+            let mut chain = Vec::new();
+            let mut cur = Some(did);
+            while let Some(d) = cur {
+                let g = tcx.generics_of(d);
+                chain.push(g);
+                cur = g.parent;
+            }
+            for g in chain.iter().rev() {
+                for p in &g.own_params {
+                    gp.push(s(p.name.to_string()));
+                }
+            }
+            o.push(("generic_params", J::Arr(gp)));
+        }
         o.push(("at", loc(tcx, body.span)));
         o.push(("exp", expn(body.span)));
         o.push(("arg_count", J::Int(body.arg_count as i128)));
